@@ -1799,13 +1799,14 @@ namespace awkward {
     size_t i = 0;
     for (;  i < others.size();  i++) {
       ContentPtr other = others[i];
+      // decide on what a virtual array *is*, not on the wrapper
+      while (VirtualArray* raw = dynamic_cast<VirtualArray*>(other.get())) {
+        other = raw->array();
+      }
       if (dynamic_cast<UnionArray8_32*>(other.get())  ||
           dynamic_cast<UnionArray8_U32*>(other.get())  ||
           dynamic_cast<UnionArray8_64*>(other.get())) {
         break;
-      }
-      else if (VirtualArray* raw = dynamic_cast<VirtualArray*>(other.get())) {
-        head.push_back(raw->array());
       }
       else {
         head.push_back(other);
@@ -1814,6 +1815,9 @@ namespace awkward {
 
     for (;  i < others.size();  i++) {
       ContentPtr other = others[i];
+      while (VirtualArray* raw = dynamic_cast<VirtualArray*>(other.get())) {
+        other = raw->array();
+      }
       tail.push_back(other);
     }
 
